@@ -23,9 +23,9 @@ from .common import Consumer, guarded
 
 LEVEL = 'model_checking'
 
-OPTIONAL = ["in", "inl", "g", "sib", "sec", "lnkf", "lnkd", "back", "lnkx", "lnkl", "cap"]
+OPTIONAL = ["in", "inl", "g", "sib", "sec", "lnkf", "lnkd", "back", "lnkx", "lnkl", "cap", "lnkz"]
 COMPS_ALL = ["in", "in.tex", "g", "sub", "deep", "..", ".", "dir", "dir2", "sib", "out", "secret",
-             "secret.tex", "lnkf", "lnkd", "back", "lnk", "lnk.tex", "dlink", "lnk2", "lnk2.latex", "Dir", "cap"]
+             "secret.tex", "lnkf", "lnkd", "back", "lnk", "lnk.tex", "dlink", "lnk2", "lnk2.latex", "Dir", "cap", "lnkz"]
 
 MC = """---- MODULE MC_InputFile ----
 EXTENDS InputFile
@@ -67,6 +67,7 @@ LINKS = {
     'back': (('p', 'q', 'out', 'back'), ('p', 'q', 'dir')),
     'lnkx': (('p', 'q', 'dir', 'lnk.tex'), ('p', 'q', 'out', 'secret.tex')),
     'lnkl': (('p', 'q', 'dir', 'lnk2.latex'), ('p', 'q', 'out', 'secret.tex')),
+    'lnkz': (('p', 'q', 'dir', 'lnkz'), ('p', 'q', 'dir', 'sub', 'deeper')),
 }
 ALWAYS_FILE = ('p', 'q', 'dir', 'sub', 'deep.tex')
 MARK2PATH = {marker(p): list(p) for p in list(FILES.values()) + [ALWAYS_FILE]}
@@ -89,7 +90,7 @@ def layout_dir(scratch, layout):
         atexit.register(_cleanup)
     root = tempfile.mkdtemp(prefix='L', dir=_proc_root[0])
     J = lambda p: os.path.join(root, *p)
-    for d in (('p', 'q', 'dir', 'sub'), ('p', 'q', 'dir2'), ('p', 'q', 'out'), ('p', 'q', 'Dir')):
+    for d in (('p', 'q', 'dir', 'sub', 'deeper'), ('p', 'q', 'dir2'), ('p', 'q', 'out'), ('p', 'q', 'Dir')):
         os.makedirs(J(d))
     with open(J(ALWAYS_FILE), 'w') as f:
         f.write(marker(ALWAYS_FILE))
@@ -308,8 +309,8 @@ def run(ctx):
         ctx.control('as_implemented resolution violates NeverOutside', r.violated == 'NeverOutside', str(r.violated))
         # main run
         if quick:
-            t2 = [t for t in OPTIONAL if t not in ('g', 'inl', 'lnkl', 'cap')]
-            jobs = _jobs(scratch, t2, ['g', 'inl', 'lnkl', 'cap'], COMPS_ALL, 2, ["dir", "dlink"], True, 'intended',
+            t2 = [t for t in OPTIONAL if t not in ('g', 'inl', 'lnkl', 'cap', 'lnkz')]
+            jobs = _jobs(scratch, t2, ['g', 'inl', 'lnkl', 'cap', 'lnkz'], COMPS_ALL, 2, ["dir", "dlink"], True, 'intended',
                          ["in", "lnkx", "sib", "sec"], 900)
         else:
             jobs = _jobs(scratch, OPTIONAL, [], COMPS_ALL, 2, ["dir", "dlink"], True, 'intended',
@@ -319,8 +320,8 @@ def run(ctx):
         ctx.log('<=2 components: %d (layout, base, request) cases; verdicts %s' % (
             m['n'], {k: v for k, v in m['counters'].items() if k in ('same', 'drift', 'outside', 'inside-not-read')}))
         # three-component requests on the richest layouts
-        comps3 = ["in", "g", "sub", "..", ".", "dir", "dir2", "sib", "out", "secret", "lnkf", "lnkd", "back", "lnk", "dlink", "lnk2"] \
-            if not quick else ["in", "sub", "..", "dir2", "sib", "out", "secret", "lnkd", "back", "lnk", "lnk2"]
+        comps3 = ["in", "g", "sub", "..", ".", "deep", "dir", "dir2", "sib", "out", "secret", "lnkf", "lnkd", "back", "lnk", "dlink", "lnk2", "lnkz"] \
+            if not quick else ["in", "sub", "..", "deep", "dir2", "sib", "out", "secret", "lnkd", "back", "lnk", "lnk2", "lnkz"]
         togg3 = ["in", "lnkx", "lnkd", "back"] if quick else ["in", "inl", "lnkx", "lnkd", "back", "lnkf"]
         fixed3 = [t for t in OPTIONAL if t not in togg3]
         jobs3 = _jobs(scratch, togg3, fixed3, comps3, 3, ["dir", "dlink"], not quick, 'intended',
